@@ -69,9 +69,6 @@ def _config(ctx, idx):
         model_rows, failures, last_value = replay_env(
             ctx, tab, desc, pol, gamma, clip, n_noise, pre_state, int(pre_e.policy_state.count), rows,
             final_state, int(post_e.policy_state.count))
-        ctx.count("rows:bootstrapped", sum(
-            1 for mr, r in zip(model_rows, rows) if r["done"] and abs(mr["reward"] - r["reward"]) < 1e-3
-            and False))
         if failures:
             t, f = failures[0]
             clause = CLAUSE.get(f, "after_done_env_and_policy_restart" if f.startswith("next_") else f)
